@@ -128,6 +128,35 @@ def thermalSourceSample (C : BBConst K) (T : Transc K) (th : Thermal K) (w : Lis
   validateWavelengths w
   w.mapM (thermalSourceAt C T th)
 
+/-! ### histories on one element: attribute assignments interleaved with `thermal_source()` queries -/
+
+/-- one thing a caller does to a `ThermalSpectralElement` -/
+inductive ThStep (K : Type)
+  | setTemp (value scale : K)     -- `th.temperature = value * unit` (`validate_quantity(what, u.K)`)
+  | setFill (f : K)               -- `th.beam_fill_factor = f`
+  | query                         -- `th.thermal_source()`; leaves the element as it is
+  deriving Repr
+
+/-- the element after one step (thermal.py:48-70: plain attribute setters; `thermal_source` builds a new
+spectrum from the attributes and stores nothing) -/
+def Thermal.step (th : Thermal K) : ThStep K → Thermal K
+  | .setTemp v s => { th with temp := tempKelvin v s }
+  | .setFill f => { th with beamFill := f }
+  | .query => th
+
+/-- what one query reports: `sp.meta['temperature']`, `sp.meta['beam_fill_factor']`, `sp(wavelengths)` -/
+def thermalQuery (C : BBConst K) (T : Transc K) (w : List K) (th : Thermal K) :
+    K × K × Except Err (List K) :=
+  (th.temp, th.beamFill, thermalSourceSample C T th w)
+
+/-- the results of all queries of a history, in order -/
+def thermalHistory (C : BBConst K) (T : Transc K) (w : List K) :
+    Thermal K → List (ThStep K) → List (K × K × Except Err (List K))
+  | _, [] => []
+  | th, .query :: r => thermalQuery C T w th :: thermalHistory C T w th r
+  | th, .setTemp v s :: r => thermalHistory C T w (th.step (.setTemp v s)) r
+  | th, .setFill f :: r => thermalHistory C T w (th.step (.setFill f)) r
+
 /-! ### `ThermalSpectralElement.from_file`: which header keywords are read -/
 
 /-- the numeric cards of a FITS table-extension header: keyword (upper case, as FITS stores it) ↦ value -/
